@@ -155,7 +155,7 @@ func vh_C13_strobe_new() {
 	verif.Assert(sameState(&s, ref) && s.initialized, "New(proto) = STROBE-128/1600 initialisation followed by meta-AD(proto)")
 }
 
-//verif:ob prop=C13,C18 name=STROBE_Clone_is_independent mode=bv tags=purego use=kf
+//verif:ob prop=C13,C18 name=STROBE_Clone_is_independent mode=bv tags=purego use=kf sharedro=1
 func vh_C13_clone() {
 	s := anyStrobe(5)
 	before := *s
